@@ -484,19 +484,16 @@ theorem no_fuse_panic (n : Nat) (s1 : LS) (h : Post n s1) :
     rw [hokB.2.2.1 (x - 1) (by rw [e]; exact hnotB), hokA.2.2.1 (x - 1) (by rw [e]; exact hnotA)]
     exact hleafAt _ _ hstr2
 
-/-- a completed main loop always gives a completed run: no overflow, no Fuse panic -/
-theorem lex_done_of_loop (E : Env) (hcls : ClsOK E) (s0 s1 : LS) (hp : prelude E {} = (s0, true))
-    (hm : mainLoop E (E.n + 1) (-1) s0 = (s1, .done)) : (lex E).status = .done := by
-  rcases lex_cases E hcls with ⟨hf, _, _⟩ | ⟨s0', s1', hp', hm', _⟩ | ⟨s0', s1', hp', hm', hpost, _⟩
+/-- a file that passes the prelude is lexed to completion: no overflow, no Fuse panic, no ICE -/
+theorem lex_done_of_prelude (E : Env) (hcls : ClsOK E) (s0 : LS) (hp : prelude E {} = (s0, true)) :
+    (lex E).status = .done := by
+  rcases lex_cases E hcls with ⟨hf, _, _⟩ | ⟨s0', s1, hp', hm, hpost, _⟩
   · rw [hp] at hf; simp at hf
   · rw [hp] at hp'; simp only [Prod.mk.injEq, and_true] at hp'; subst hp'
-    rw [hm] at hm'; simp at hm'
-  · rw [hp] at hp'; simp only [Prod.mk.injEq, and_true] at hp'; subst hp'
-    rw [hm] at hm'; simp only [Prod.mk.injEq, and_true] at hm'; subst hm'
-    have hov := (fuseBraces_post E.n s1 hpost).1.nov
-    have hnf := no_fuse_panic E.n s1 hpost
-    simp only [lex, hp, hm]
-    cases hfb : fuseBraces E.n s1 with
+    have hov := (fuseBraces_post E.n _ hpost).1.nov
+    have hnf := no_fuse_panic E.n _ hpost
+    simp only [lex, lexCore, hp, hm, if_true]
+    cases hfb : fuseBraces E.n (flush E.n s1) with
     | mk s2 bp =>
       rw [hfb] at hov hnf
       simp only at hov hnf ⊢
@@ -510,18 +507,18 @@ theorem lex_done_of_loop (E : Env) (hcls : ClsOK E) (s0 s1 : LS) (hp : prelude E
           simp only at hnf ⊢
           rw [if_neg (by simp [hov, hnf.1, hnf.2])]
 
-/-- the ways a run can end, exactly: prelude abort; a panic inside an iteration of the main loop;
-    or completion -/
-theorem lex_trichotomy (E : Env) (hcls : ClsOK E) :
+/-- the ways a run can end, exactly: the prelude refuses the file, or the run completes -/
+theorem lex_dichotomy (E : Env) (hcls : ClsOK E) :
     ((prelude E {}).2 = false ∧ (lex E).status = .abort) ∨
-    (∃ s0 s1, prelude E {} = (s0, true) ∧ mainLoop E (E.n + 1) (-1) s0 = (s1, .icePanic) ∧
-      (lex E).status = .icePanic) ∨
-    (∃ s0 s1, prelude E {} = (s0, true) ∧ mainLoop E (E.n + 1) (-1) s0 = (s1, .done) ∧
-      (lex E).status = .done) := by
-  rcases lex_cases E hcls with ⟨hf, ha, _⟩ | ⟨s0, s1, hp, hm, hi⟩ | ⟨s0, s1, hp, hm, _⟩
-  · exact Or.inl ⟨hf, ha⟩
-  · exact Or.inr (Or.inl ⟨s0, s1, hp, hm, hi⟩)
-  · exact Or.inr (Or.inr ⟨s0, s1, hp, hm, lex_done_of_loop E hcls s0 s1 hp hm⟩)
+    (∃ s0, prelude E {} = (s0, true) ∧ (lex E).status = .done) := by
+  cases hp : prelude E {} with
+  | mk s0 b =>
+    cases b with
+    | false =>
+      rcases lex_cases E hcls with ⟨_, ha, _⟩ | ⟨s0', _, hp', _⟩
+      · exact Or.inl ⟨rfl, ha⟩
+      · rw [hp] at hp'; simp at hp'
+    | true => exact Or.inr ⟨s0, rfl, lex_done_of_prelude E hcls s0 hp⟩
 
 /-! ### when does the prelude let a file through -/
 
@@ -559,14 +556,28 @@ theorem prelude_passes (E : Env) (hv : V E.text) (h16 : looksUtf16 E.text = fals
       · exact ⟨_, rfl⟩
       · exact ⟨_, rfl⟩
 
-/-- **Input-level totality of the lexer.** Every valid UTF-8 file without a backslash that does not
-    look like UTF-16 is lexed to completion: no ICE, no abort. -/
-theorem lex_done_of_no_backslash (E : Env) (hcls : ClsOK E) (hv : V E.text)
-    (h16 : looksUtf16 E.text = false) (hbs : (92 : UInt8) ∉ E.text) : (lex E).status = .done := by
-  obtain ⟨s0, hp⟩ := prelude_passes E hv h16
-  rcases lex_trichotomy E hcls with ⟨hf, _⟩ | ⟨s0', s1, hp', hm, _⟩ | ⟨_, _, _, _, hd⟩
-  · rw [hp] at hf; simp at hf
-  · exact absurd (mainLoop_ice E _ _ _ (by rw [hm])) hbs
-  · exact hd
+/-- the prelude passes exactly on the files that are valid UTF-8 and do not trip the UTF-16
+    heuristics (the empty file included) -/
+theorem prelude_passes_iff (E : Env) :
+    (prelude E {}).2 = true ↔ (E.text = [] ∨ (looksUtf16 E.text = false ∧ V E.text)) := by
+  constructor
+  · intro h
+    by_cases ht : E.text = []
+    · exact Or.inl ht
+    · right
+      unfold prelude at h
+      simp only at h
+      rw [if_neg ht] at h
+      split at h
+      · simp at h
+      · next h16 =>
+        refine ⟨by simpa using h16, ?_⟩
+        split at h
+        · next x hscan => exact utf8Scan_valid (E.text.length + 1) E.text 0 0 none (by omega) (by rw [hscan])
+        · split at h <;> simp at h
+  · rintro (ht | ⟨h16, hv⟩)
+    · unfold prelude; simp [ht]
+    · obtain ⟨s0, hs⟩ := prelude_passes E hv h16
+      rw [hs]
 
 end PCV.XLexer
